@@ -58,6 +58,21 @@ theorem C19_oids_source :
     Gen.rustOid "PASSMOD_OID" = some oidPassMod ∧ Gen.rustOid "TXN_START_OID" = some oidTxnStart ∧
     Gen.rustOid "TXN_END_OID" = some oidTxnEnd ∧ Gen.rustOid "STARTTLS_OID" = some oidStartTLS := by decide
 
+/-- the Rust name of a `ControlType` variant -/
+def controlTypeName : ControlType → String
+  | .pagedResults => "PagedResults" | .postReadResp => "PostReadResp" | .preReadResp => "PreReadResp"
+  | .syncDone => "SyncDone" | .syncState => "SyncState" | .manageDsaIt => "ManageDsaIt"
+  | .matchedValues => "MatchedValues"
+
+/-- **tie by regeneration**: the `CONTROLS` map of src/controls_impl.rs — one `map.insert(<OID constant>,
+ControlType::<Variant>)` per recognised response control, read by translate/consts.py on every run — is the model's
+`controlsTable`: the same rows (OID value by constant name, variant by name), no more, no fewer, and the OIDs are
+pairwise different (so the order of insertion into the `HashMap` does not matter). -/
+theorem C19_controls_map_source :
+    Gen.rustControlsMap.map (fun p => (Gen.rustOid p.1, p.2)) =
+      controlsTable.map (fun p => (some p.1, controlTypeName p.2)) ∧
+    (controlsTable.map (·.1)).Nodup := by decide
+
 theorem C19_known_table :
     knownType Codecs.Spec.rfcPagedResults = some .pagedResults ∧
     knownType Codecs.Spec.rfcPostRead = some .postReadResp ∧
